@@ -53,7 +53,8 @@ type vfRecorder struct {
 	calls    []vfCall
 	active   map[string]string
 	failNext bool
-	notify   func(vfCall) // optional; called without the lock held (sentinels in the asynchronous modes)
+	notify   func(vfCall)              // optional; called without the lock held (sentinels in the asynchronous modes)
+	reject   func(content string) bool // optional; content the processor refuses (providers that leave validation to it)
 }
 
 func vfNewRecorder() *vfRecorder { return &vfRecorder{active: map[string]string{}} }
@@ -64,7 +65,9 @@ func (r *vfRecorder) record(op string, rs *vfrc.RuleSet) error {
 		c.Content = rs.Rules[0].ID
 	}
 	r.mu.Lock()
-	if r.failNext {
+	if op != "D" && r.reject != nil && r.reject(c.Content) {
+		c.Failed = true
+	} else if r.failNext {
 		r.failNext = false
 		c.Failed = true
 	} else if op == "D" {
@@ -255,11 +258,14 @@ func vfNewOracle(st *vfStats) *vfOracle {
 // vfStep is one processing step of the provider (one notification handled, one poll done).
 type vfStep struct {
 	Action   string
-	States   map[string]vfState                  // every logical source this step looks at -> actual state now
-	Holder   func(content string) string         // logical source currently holding this content id ("" = nobody)
+	States   map[string]vfState                    // every logical source this step looks at -> actual state now
+	Holder   func(content string) string           // logical source currently holding this content id ("" = nobody)
 	Classify func(m *vfMismatch, s *vfStep) string // narrow signature for a known divergence, "" = generic
-	Generic  string                              // generic signature of this provider
-	Ctx      map[string]string                   // free-form context for Classify (e.g. event kind per source)
+	Generic  string                                // generic signature of this provider
+	Ctx      map[string]string                     // free-form context for Classify (e.g. event kind per source)
+	// NoRetry: this notification is not one on which the provider re-examines the source; a change whose
+	// processor call failed by injection may stay pending (nothing in the statement promises a retry here)
+	NoRetry bool
 }
 
 func (o *vfOracle) addMismatch(idx int, s *vfStep, m vfMismatch) {
@@ -349,6 +355,16 @@ func (o *vfOracle) step(idx int, s *vfStep, calls []vfCall) {
 			o.addMismatch(idx, s, vfMismatch{Kind: "call-for-source-not-concerned", Source: l, Observed: c.String(), call: c})
 		case !e.Asserted:
 			// recorded only
+		case o.dirty[l] && ((c.Op != "D" && st.Kind == vfValid && c.Content == st.Content) || (c.Op == "D" && (st.Kind == vfGone || st.Kind == vfEmpty || st.Kind == vfSignalGone))):
+			// the last call for this source failed by injection: what is promised is only that a later
+			// notification brings it to the source's state, with whatever call kind the provider's view suggests
+			o.stat.add("calls_on_source_pending_after_injected_failure", 1)
+		case c.Failed && st.Kind == vfInvalid && c.Op != "D":
+			// the provider leaves validation to the processor, which refused this content: nothing was applied
+			o.stat.add("invalid_content_refused_by_processor", 1)
+		case e.Op == "" && c.Op == "D" && !wasApplied && (st.Kind == vfGone || st.Kind == vfEmpty || st.Kind == vfSignalGone):
+			// unload of a removed source that is not loaded (e.g. its creation had failed): no effect
+			o.stat.add("redundant_delete_of_unapplied_source", 1)
 		case e.Lenient:
 			if c.Op != "D" {
 				o.addMismatch(idx, s, vfMismatch{Kind: "unexpected-call", Source: l, State: st.String(), Expected: e.String(), Observed: c.String(), call: c, exp: e, st: st})
@@ -373,8 +389,15 @@ func (o *vfOracle) step(idx int, s *vfStep, calls []vfCall) {
 		handled[l] = true
 		lastFailed[l] = c.Failed // a further call for l in this step is then a retry, not a duplicate
 		if c.Failed {
-			sawFailure = true
-			o.dirty[l] = true
+			if st.Kind != vfInvalid {
+				sawFailure = true
+				o.dirty[l] = true
+			}
+			if _, ok := o.srcKey[l]; !ok && c.Op != "D" {
+				// remember the key of the attempt: a later delete with this key is not "a source never heard of"
+				o.srcKey[l] = c.Source
+				o.keyOf[c.Source] = l
+			}
 			continue
 		}
 		o.nOK++
@@ -401,6 +424,10 @@ func (o *vfOracle) step(idx int, s *vfStep, calls []vfCall) {
 			o.stat.add("expected_calls_skipped_after_injected_failure", 1)
 			continue
 		}
+		if s.NoRetry && o.dirty[l] {
+			o.stat.add("pending_change_not_retried_on_this_notification", 1)
+			continue
+		}
 		missing = append(missing, l)
 	}
 	sort.Strings(missing)
@@ -414,15 +441,31 @@ func (o *vfOracle) step(idx int, s *vfStep, calls []vfCall) {
 			call: vfFirst(unknownDeletes)})
 	}
 	if len(unknownDeletes) > 0 {
-		o.stat.add("deletes_for_source_never_created", len(unknownDeletes))
 		attributed := false
 		for _, l := range missing {
 			if exp[l].Op == "D" {
-				attributed = true
+				attributed = true // reported above as the missing delete of l
 			}
 		}
-		if !attributed {
+		if attributed {
+			o.stat.add("deletes_for_source_never_created", len(unknownDeletes))
+		} else {
 			for _, c := range unknownDeletes {
+				// a delete with a key never seen before, while no expected delete is missing: harmless if it can only
+				// concern the one removed source of this step that was never created (so no key is known for it)
+				var cand []string
+				for ls, st := range s.States {
+					if _, bound := o.srcKey[ls]; !bound && (st.Kind == vfGone || st.Kind == vfEmpty || st.Kind == vfSignalGone) {
+						cand = append(cand, ls)
+					}
+				}
+				if len(cand) == 1 {
+					o.srcKey[cand[0]] = c.Source
+					o.keyOf[c.Source] = cand[0]
+					o.stat.add("redundant_delete_of_unapplied_source", 1)
+					continue
+				}
+				o.stat.add("deletes_for_source_never_created", 1)
 				o.addMismatch(idx, s, vfMismatch{Kind: "delete-for-source-never-created", Observed: c.String(), call: c})
 			}
 		}
@@ -632,9 +675,9 @@ func vfRuleSetYAML(id string) string {
 
 // vfInvalidDocs are syntactically or structurally invalid rule sets (all rejected by config.ParseRules).
 var vfInvalidDocs = []string{
-	"version: [1\n",                                   // YAML syntax error
-	"version: \"1alpha4\"\nrules: []\n",                // no rules
-	"version: \"1alpha4\"\nrulez:\n- id: x\n",          // unknown field
+	"version: [1\n",                                       // YAML syntax error
+	"version: \"1alpha4\"\nrules: []\n",                   // no rules
+	"version: \"1alpha4\"\nrulez:\n- id: x\n",             // unknown field
 	"version: \"1alpha4\"\nrules:\n- id: x\n  match: 5\n", // type confusion
 	"rules:\n- id: x\n  match:\n    routes:\n      - path: /x\n  execute:\n    - authenticator: a\n", // version missing
 }
